@@ -1,6 +1,7 @@
 (** Safety/FrontProofs.v — C01, proved half: the byte-level front end (lexer, string lexers,
-    name decoding, parser, indirect objects, ASCIIHex / ASCII85 / RunLength decoders) returns a
-    value or an error value for EVERY byte string, with the linear fuel its entry points use.
+    name decoding, parser, indirect objects) returns a value or an error value for EVERY byte
+    string, with the linear fuel its entry points use.  (The stream decoders are proved total
+    in Codec/ — C05_no_panic — and only re-exported by Properties/C01.v.)
     Method: a postcondition calculus ([post]) + "every step consumes input" (progress) lemmas;
     the fuel bound is by induction on the fuel with the invariant [2 * remaining + c <= fuel]. *)
 From PdfV Require Import Base.Prelude Gen.Generated Lex.Lexer Lex.StrLexer Syn.Prim Syn.Utf8 Syn.Parser
@@ -405,104 +406,3 @@ Qed.
 
 Theorem parse_seq_total data : never_crashes (parse_all (S (length data)) data (mkLx 0 data)).
 Proof. eapply post_never. apply parse_all_post. unfold remaining. cbn [lrest]. lia. Qed.
-
-(* ------------------------------------------------------------------ decoders *)
-Lemma hex_pairs_post : forall n l, (length l <= n)%nat -> post (fun _ => True) (hex_pairs l).
-Proof.
-  induction n as [|n IH]; intros l Hl.
-  - destruct l; [cbn; exact I|cbn [length] in Hl; lia].
-  - destruct l as [|hi [|lo t]]; try (cbn; exact I). cbn [hex_pairs].
-    destruct (decode_nibble lo); [|cbn; exact I]. destruct (decode_nibble hi); [|cbn; exact I].
-    assert (H : post (fun _ => True) (hex_pairs t)) by (apply IH; cbn [length] in Hl; lia).
-    destruct (hex_pairs t); cbn in *; auto.
-Qed.
-
-Theorem decode_hex_total data : never_crashes (decode_hex data).
-Proof. eapply post_never. unfold decode_hex. eapply hex_pairs_post. reflexivity. Qed.
-
-Lemma a85_loop_post : forall fuel syms, (length syms < fuel)%nat -> post (fun _ => True) (a85_loop fuel syms).
-Proof.
-  induction fuel as [|f IH]; intros syms Hf; [lia|].
-  cbn [a85_loop]. destruct syms as [|a t]; [cbn; exact I|]. cbn [length] in Hf.
-  destruct (a =? a85_z).
-  - assert (H : post (fun _ => True) (a85_loop f t)) by (apply IH; lia).
-    destruct (a85_loop f t); cbn in *; auto.
-  - destruct t as [|b [|c [|d [|e t']]]].
-    all: try (match goal with |- post _ (match ?p with _ => _ end) =>
-                destruct p as [|? [|? [|? [|? [|? [|? ?]]]]]]; try (cbn; exact I);
-                match goal with |- post _ (match ?w with _ => _ end) => destruct w; cbn; exact I end end).
-    destruct (word_85 a b c d e); [|cbn; exact I].
-    assert (H : post (fun _ => True) (a85_loop f t')) by (apply IH; cbn [length] in Hf; lia).
-    destruct (a85_loop f t'); cbn in *; auto.
-Qed.
-
-Theorem decode_85_total data : never_crashes (decode_85 data).
-Proof.
-  eapply post_never with (Q := fun _ => True). unfold decode_85.
-  pose proof (a85_loop_post (S (length (take_until a85_tilde (strip a85_ws data)))) (take_until a85_tilde (strip a85_ws data))) as H.
-  specialize (H ltac:(lia)).
-  destruct (a85_loop _ _); cbn in *; auto.
-  destruct (drop_until a85_tilde (strip a85_ws data)) as [|g [|? ?]]; cbn; auto.
-  destruct (g =? a85_gt); cbn; exact I.
-Qed.
-
-(* ------------------------------------------------------------------ RunLength *)
-(* enc.rs: run_length_decode never loops (linear fuel) ... *)
-Lemma rle_loop_fuel : forall fuel d, (length d < fuel)%nat -> rle_loop fuel d <> OutOfFuel.
-Proof.
-  induction fuel as [|f IH]; intros d Hf; [lia|].
-  cbn [rle_loop]. destruct d as [|len t]; [discriminate|]. cbn [length] in Hf.
-  destruct (len <? rle_lit_below).
-  - destruct (Nat.leb (N.to_nat len + 1) (length t)); [|discriminate].
-    specialize (IH (skipn (N.to_nat len + 1) t)). rewrite skipn_length in IH. specialize (IH ltac:(lia)).
-    destruct (rle_loop f (skipn (N.to_nat len + 1) t)); try discriminate. exact IH.
-  - destruct (rle_rep_from <=? len); [|discriminate].
-    destruct t as [|b t']; [discriminate|]. specialize (IH t' ltac:(cbn [length] in Hf; lia)).
-    destruct (rle_loop f t'); try discriminate. exact IH.
-Qed.
-
-(* ... its only panics are the two slice/index sites ... *)
-Lemma rle_loop_sites : forall fuel d s, rle_loop fuel d = Panic s -> s = 102 \/ s = 103.
-Proof.
-  induction fuel as [|f IH]; intros d s H; [discriminate|].
-  cbn [rle_loop] in H. destruct d as [|len t]; [discriminate|].
-  destruct (len <? rle_lit_below).
-  - destruct (Nat.leb (N.to_nat len + 1) (length t)); [|inversion H; auto].
-    destruct (rle_loop f (skipn (N.to_nat len + 1) t)) eqn:E; try discriminate. inversion H; subst. eapply IH; exact E.
-  - destruct (rle_rep_from <=? len); [|discriminate].
-    destruct t as [|b t']; [inversion H; auto|].
-    destruct (rle_loop f t') eqn:E; try discriminate. inversion H; subst. eapply IH; exact E.
-Qed.
-
-(* ... and it panics on no input whose runs are complete *)
-Lemma rle_complete_safe : forall fuel d, rle_complete_go fuel d = true -> forall s, rle_loop fuel d <> Panic s.
-Proof.
-  induction fuel as [|f IH]; intros d Hc s; [discriminate|].
-  cbn [rle_loop]. cbn [rle_complete_go] in Hc. destruct d as [|len t]; [discriminate|].
-  destruct (len <? rle_lit_below).
-  - apply andb_prop in Hc. destruct Hc as [H1 H2]. rewrite H1.
-    specialize (IH _ H2 s). destruct (rle_loop f (skipn (N.to_nat len + 1) t)); try discriminate. exact IH.
-  - destruct (rle_rep_from <=? len); [|discriminate].
-    destruct t as [|b t']; [discriminate|]. specialize (IH _ Hc s).
-    destruct (rle_loop f t'); try discriminate. exact IH.
-Qed.
-
-Theorem run_length_decode_terminates d : run_length_decode d <> OutOfFuel.
-Proof. apply rle_loop_fuel. lia. Qed.
-
-Theorem run_length_decode_total_on_complete d : rle_complete d = true -> never_crashes (run_length_decode d).
-Proof. intros H. split; [apply rle_complete_safe; exact H|apply run_length_decode_terminates]. Qed.
-
-Theorem run_length_decode_panic_sites d s : run_length_decode d = Panic s -> s = 102 \/ s = 103.
-Proof. apply rle_loop_sites. Qed.
-
-(* C01-a: the full statement is false of the code as it is: a truncated literal run / a repeat
-   count without its byte index past the end of the buffer *)
-Theorem run_length_decode_refuted :
-  ~ (forall d, never_crashes (run_length_decode d)) /\
-  run_length_decode [0] = Panic 102 /\ run_length_decode [200] = Panic 103 /\
-  rle_complete [0] = false /\ rle_complete [200] = false.
-Proof.
-  split; [|repeat split; vm_compute; reflexivity].
-  intros H. destruct (H [0]) as [Hp _]. apply (Hp 102). vm_compute. reflexivity.
-Qed.
